@@ -8,7 +8,7 @@ sort / n_largest / n_smallest / nth_* / median, the derived eq/ne/lt/le/gt/ge/cm
 on generated nested values, format on ints/strs/floats; accounted bytes after a failed sort.
 Oracle: plain Python (sorted() is stable; tuples/lists compare lexicographically)."""
 import functools
-import re
+import re, struct
 from .common import *
 
 ERR = "ERR"
@@ -289,7 +289,7 @@ def accounting_cases(chk, quick):
 # types: ("int",) ("bool",) ("str",) ("tuple", [t..]) ("seq", t) ("opt", t) ("stack", t)
 def gen_type(rng, depth):
     if depth == 0 or rng.random() < 0.25:
-        return (rng.choice(["int", "int", "bool", "str"]),)
+        return (rng.choice(["int", "int", "bool", "str", "float"]),)
     k = rng.choice(["tuple", "seq", "seq", "opt", "stack"])
     if k == "tuple":
         return ("tuple", [gen_type(rng, depth - 1) for _ in range(rng.choice([2, 2, 3]))])
@@ -297,7 +297,7 @@ def gen_type(rng, depth):
 
 
 def type_str(t):
-    if t[0] in ("int", "bool", "str"):
+    if t[0] in ("int", "bool", "str", "float"):
         return t[0]
     if t[0] == "tuple":
         return "(" + ", ".join(type_str(x) for x in t[1]) + ")"
@@ -316,6 +316,11 @@ def has(t, kinds):
 
 INTS = [-1, 0, 1, 2, 7, 2**63, 2**64 + 1, -(2**64) - 5]
 STRS = ["", "a", "ab", "b", "aé", "A"]
+FLOATS = [0.0, -0.0, 1.5, -2.25, 0.1, 3.0, 100000.5]
+
+
+def fbits(v):
+    return struct.unpack("<Q", struct.pack("<d", v))[0]
 
 
 def gen_val(rng, t, big):
@@ -326,6 +331,8 @@ def gen_val(rng, t, big):
         return rng.random() < 0.5
     if k == "str":
         return rng.choice(STRS)
+    if k == "float":
+        return rng.choice(FLOATS)
     if k == "tuple":
         return tuple(gen_val(rng, x, big) for x in t[1])
     if k == "opt":
@@ -340,7 +347,7 @@ def mutate(rng, t, v):
     r = rng.random()
     if r < 0.35:
         return v
-    if k in ("int", "bool", "str"):
+    if k in ("int", "bool", "str", "float"):
         return gen_val(rng, t, False)
     if k == "tuple":
         j = rng.randrange(len(v))
@@ -363,6 +370,8 @@ def xlit(t, v):
         return "true" if v else "false"
     if k == "str":
         return '"' + v + '"'
+    if k == "float":
+        return repr(v) if fbits(v) >> 63 == 0 else f"(-{repr(-v)})"
     if k == "tuple":
         return "(" + ", ".join(xlit(x, y) for x, y in zip(t[1], v)) + ")"
     if k == "opt":
@@ -384,6 +393,8 @@ def enc(t, v):
         return "T" if v else "F"
     if k == "str":
         return "s" + ".".join(str(ord(c)) for c in v) + ";"
+    if k == "float":
+        return f"f{fbits(v)};"
     if k == "tuple":
         return "(" + "".join(enc(x, y) for x, y in zip(t[1], v)) + ")"
     if k == "opt":
@@ -414,6 +425,8 @@ def dump(t, v):
         return "(bool true)" if v else "(bool false)"
     if k == "str":
         return "(str " + esc(v) + ")"
+    if k == "float":
+        return "(float %016x)" % fbits(v)
     if k == "tuple":
         return "(struct" + "".join(" " + dump(x, y) for x, y in zip(t[1], v)) + ")"
     if k == "opt":
@@ -424,7 +437,7 @@ def dump(t, v):
 def key(t, v):
     """python value whose ==/< are the structural eq / lexicographic cmp"""
     k = t[0]
-    if k in ("int", "bool", "str"):
+    if k in ("int", "bool", "str", "float"):
         return v
     if k == "tuple":
         return tuple(key(x, y) for x, y in zip(t[1], v))
@@ -441,6 +454,8 @@ def to_str(t, v):
         return "true" if v else "false"
     if k == "str":
         return v
+    if k == "float":
+        return repr(v + 0.0) if v != 0 else "0.0"     # to_str normalises -0.0
     if k == "tuple":
         return "(" + ", ".join(to_str(x, y) for x, y in zip(t[1], v)) + ")"
     if k == "opt":
@@ -450,13 +465,22 @@ def to_str(t, v):
 
 def derive_cases(chk, quick):
     rng = chk.rng
-    cases = []   # (op, type, a, b, expr, expected dump | ("hash", idx), model line or None, expected model answer)
+    cases = []   # (op, expr, expected dump, model line or None, expected model answer)
+    structs = []
     n_types = 36 if quick else 500
     for _ in range(n_types):
         t = gen_type(rng, rng.choice([1, 2, 2, 3]))
         comparable = not has(t, ("opt", "stack"))
         printable = not has(t, ("stack",))
-        modelhash = not has(t, ("str",))
+        modelhash = not has(t, ("str", "float"))
+        hashable = not has(t, ("float",))          # the library defines no hash for floats
+        modelstr = not has(t, ("float",))
+        sname = None
+        if t[0] == "tuple":
+            sname = f"S{len(structs)}"
+            structs.append(f"struct {sname}(" + ", ".join(f"f{i}: {type_str(x)}" for i, x in enumerate(t[1])) + ")\n")
+            chk.count("derive:struct-members")
+        smem = lambda v: f"{sname}(" + ", ".join(xlit(x, y) for x, y in zip(t[1], v)) + ").members()"
         base = gen_val(rng, t, True)
         vals = [base, mutate(rng, t, base), mutate(rng, t, base)]
         vals.append(mutate(rng, t, vals[1]))
@@ -470,7 +494,11 @@ def derive_cases(chk, quick):
                 m2 = lambda x: "bool true" if x else "bool false"
                 cases.append(("eq", f"{A} == {B}", b2(ka == kb), f"ord derive eq {ea} {eb}", m2(ka == kb)))
                 cases.append(("ne", f"{A} != {B}", b2(ka != kb), f"ord derive ne {ea} {eb}", m2(ka != kb)))
-                cases.append(("hash-congr", f"(hash({A}) == hash({B})) || {A} != {B}", b2(True), None, None))
+                if hashable:
+                    cases.append(("hash-congr", f"(hash({A}) == hash({B})) || {A} != {B}", b2(True), None, None))
+                if sname:
+                    cases.append(("members-eq", f"{smem(a)} == {smem(b)}", b2(ka == kb), None, None))
+                    cases.append(("members-eq-tuple", f"{smem(a)} == {B}", b2(ka == kb), None, None))
                 if comparable:
                     c = (ka > kb) - (ka < kb)
                     cases.append(("cmp", f"cmp({A}, {B})", f"(int S {c})", f"ord derive cmp {ea} {eb}", f"int {c}"))
@@ -478,22 +506,32 @@ def derive_cases(chk, quick):
                     cases.append(("le", f"{A} <= {B}", b2(c <= 0), f"ord derive le {ea} {eb}", m2(c <= 0)))
                     cases.append(("gt", f"{A} > {B}", b2(c > 0), f"ord derive gt {ea} {eb}", m2(c > 0)))
                     cases.append(("ge", f"{A} >= {B}", b2(c >= 0), f"ord derive ge {ea} {eb}", m2(c >= 0)))
-                    mn, mx = (a, b) if c <= 0 else (b, a)
+                    # include.rs: max = if(lt(a,b), b, a); min = if(lt(b,a), b, a): ties give the FIRST argument
+                    mn = b if c > 0 else a
+                    mx = b if c < 0 else a
+                    if sname:
+                        cases.append(("members-cmp", f"cmp({smem(a)}, {smem(b)})", f"(int S {c})", None, None))
                     cases.append(("min", f"min({A}, {B})", dump(t, mn), f"ord derive min {ea} {eb}", "val " + enc(t, mn)))
                     cases.append(("max", f"max({A}, {B})", dump(t, mx), f"ord derive max {ea} {eb}", "val " + enc(t, mx)))
             A, ea = xlit(t, a), enc(t, a)
-            cases.append(("hash", f"hash({A})", "HASH", f"ord derive hash {ea} N" if modelhash else None, "MODELHASH"))
+            if hashable:
+                cases.append(("hash", f"hash({A})", "HASH", f"ord derive hash {ea} N" if modelhash else None, "MODELHASH"))
+                if sname:
+                    cases.append(("members-hash", f"hash({smem(a)}) == hash({A})", "(bool true)", None, None))
             if printable:
                 ts = to_str(t, a)
-                cases.append(("to_str", f"to_str({A})", "(str " + esc(ts) + ")", f"ord derive to_str {ea} N",
+                cases.append(("to_str", f"to_str({A})", "(str " + esc(ts) + ")", f"ord derive to_str {ea} N" if modelstr else None,
                               "str " + ".".join(str(ord(ch)) for ch in ts)))
-    dumps = eval_exprs([c[1] for c in cases])
+                if sname:
+                    cases.append(("members-to_str", f"to_str({smem(a)})", "(str " + esc(ts) + ")", None, None))
+    prelude = "".join(structs)
+    dumps = eval_exprs([c[1] for c in cases], prelude=prelude)
     mi = [i for i, c in enumerate(cases) if c[3]]
     mres = dict(zip(mi, run_model([cases[i][3] for i in mi])))
     for i, ((op, expr, want, mline, mwant), d) in enumerate(zip(cases, dumps)):
         chk.evaluations += 1
         chk.count("derive:" + op)
-        replay = {"src": f"let r = {expr};", "get": ["r"], "expected": want, "got": d}
+        replay = {"src": prelude + f"let r = {expr};", "get": ["r"], "expected": want, "got": d}
         if want == "HASH":
             okh = d.startswith("(int ") and 0 <= int(d.split()[2].rstrip(")")) < 2**64
             if not okh:
@@ -514,15 +552,12 @@ def derive_cases(chk, quick):
     chk.sample({"lang": cases[0][1][:200], "expected": cases[0][2]})
     # set / mapping hash after removals (the model and theorems are C17's; here only the replay of the
     # observation of DESIGN §7 as a regression)
-    extra = [("set-hash-after-remove", "hash(set([1, 2, 3]).remove(2)) == hash(set([1, 3]))", "(bool true)"),
-             ("set-eq-after-remove", "set([1, 2, 3]).remove(2) == set([1, 3])", "(bool true)"),
-             ("mapping-hash-after-pop", "hash(mapping().set(1, 10).set(2, 20).discard(2)) == hash(mapping().set(1, 10))", "(bool true)")]
+    extra = [("set-hash-after-remove", "hash(set<int>().update([1, 2, 3]).remove(2)) == hash(set<int>().update([1, 3]))", "(bool true)"),
+             ("set-eq-after-remove", "set<int>().update([1, 2, 3]).remove(2) == set<int>().update([1, 3])", "(bool true)"),
+             ("mapping-hash-after-pop", "hash(mapping<int>().set(1, 10).set(2, 20).discard(2)) == hash(mapping<int>().set(1, 10))", "(bool true)")]
     for (k, expr, want), d in zip(extra, eval_exprs([e[1] for e in extra])):
         chk.evaluations += 1
         chk.count("derive:" + k)
-        if d.startswith("compile-err"):
-            chk.count("derive:" + k + ":not-expressible")
-            continue
         if d != want:
             chk.violation(f"lang:derive:{k}", f"{expr} = {d}; equal collections must hash equally", {"src": f"let r = {expr};", "get": ["r"]})
 
